@@ -5,7 +5,7 @@
     MaybeUninit-typed and slice handles), all 26 conversion edges, the five callback forms with nested
     bodies and panics; [reachable s] ranges over every finite history from the empty state. *)
 From Coq Require Import NArith List Bool Arith.
-From TV Require Import Mech MechProofs MechLog MechProps.
+From TV Require Import Mech MechProofs MechLog MechTok MechProps.
 Import ListNotations.
 Open Scope N_scope.
 
@@ -65,6 +65,16 @@ Theorem C01_last_release_destroys_then_frees :
          else [EAtomic SDec (b_cnt b)]) ++ log (ms s).
 Proof. intros d s h x f R Hd Hs. apply drop_events; [apply reachable_inv; auto|split; auto]. Qed.
 
+(** No payload value is destroyed twice, in any history: the destroyed values in the log are pairwise distinct, none of
+    them is still stored in a live block, the values stored in live blocks are pairwise distinct, and every one of
+    them was made by a constructor, a Clone call or a write (all take a fresh token). *)
+Theorem C01_every_value_destroyed_at_most_once :
+  forall s, reachable s -> dead s = false ->
+  NoDup (dtors (log (ms s))) /\ NoDup (live (heap (ms s))) /\
+  (forall t, In t (dtors (log (ms s))) -> ~ In t (live (heap (ms s)))) /\
+  (forall t, In t (dtors (log (ms s))) \/ In t (live (heap (ms s))) -> t < ntok (ms s)).
+Proof. exact reachable_dtor_once. Qed.
+
 (** non-vacuity: a concrete history through Arc, OffsetArc, ArcUnion, ThinArc, a callback with a panic,
     make_mut on a shared value and a raw pointer reaches a state with 3 blocks, one of them released. *)
 Example C01_nonvacuous :
@@ -80,3 +90,4 @@ Print Assumptions C01_every_handle_refers_to_a_live_block.
 Print Assumptions C01_read_sees_current_contents.
 Print Assumptions C01_memory_returned_exactly_once_when_last_owner_goes.
 Print Assumptions C01_last_release_destroys_then_frees.
+Print Assumptions C01_every_value_destroyed_at_most_once.
